@@ -310,6 +310,32 @@ func genC16(c *Ctx) {
 		c.EmitOut(line, out, true)
 		c16Check(c, s, a, cf, now, dur, line, out, res)
 	}
+	// systematic corner: sessions created right at / before the end of the first segment with a duration of exactly
+	// one or two segments (the last number to send is then 0 or 1), more steps than segments
+	for ai, a := range assets {
+		if !c.Thorough() && ai >= 2 {
+			break
+		}
+		for _, cf := range []string{"-", "segtimeline_1", "start_7,segtimelinenr_1"} {
+			startS := 0
+			if strings.Contains(cf, "start_7") {
+				startS = 7
+			}
+			for _, off := range []int{0, 1, a.SegmentDurMS - 1, a.SegmentDurMS} {
+				for _, nseg := range []int{1, 2} {
+					if a.SegmentDurMS%1000 != 0 {
+						continue
+					}
+					args := []string{a.AssetPath, cf, strconv.Itoa(startS*1000 + off), strconv.Itoa(nseg * a.SegmentDurMS / 1000), "ssss"}
+					line := "sess " + strings.Join(args, " ")
+					out, res := runSess(args, nil)
+					c.EmitOut(line, out, true)
+					c16Check(c, s, a, cf, startS*1000+off, args[3], line, out, res)
+					c.Count("session.first-segment-corner")
+				}
+			}
+		}
+	}
 	for i := 0; i < c.N(3, 12); i++ {
 		a := assets[r.Intn(len(assets))]
 		c16EarlyDelete(c, s, a, r.Pick(a.LoopDurMS+1, 3*a.LoopDurMS+17))
